@@ -631,6 +631,39 @@ def rules_part(run, cx, quick):
             (norule if tab == 1 else norule2).append("(%s, %s)" % (tb, ta))
         else:
             (cases if tab == 1 else cases2).append("(%d%%nat, %s, %s)" % (k, tb, ta))
+    # comp.restruct: compositions of registers and constants (signed and unsigned, msb set or not) in random order; the
+    # model side is restruct applied to the right-nested concatenation of the SAME parts, built here, not by amoco
+    rcases = []
+    for _ in range(150 if quick else 2000):
+        np_ = rng.randrange(2, 7)
+        parts, terms, names = [], [], {}
+        for j in range(np_):
+            w = rng.choice([1, 2, 3, 4, 7, 8, 9, 16, 31, 32])
+            if rng.random() < 0.6:
+                v = rng.choice([0, 1, (1 << w) - 1, 1 << (w - 1), rng.getrandbits(w)])
+                c = E.cst(v, w)
+                if rng.random() < 0.4:
+                    c.sf = True
+                parts.append(c)
+                terms.append(("cst", v, w, bool(c.sf)))
+            else:
+                parts.append(E.reg("r%d" % j, w))
+                terms.append(("reg", "r%d" % j, w, False))
+        try:
+            out = X.dump(E.composer(parts))
+            widths = [t[2] for t in terms]
+            acc = coq_exp(terms[-1], names)
+            accw = widths[-1]
+            for t in reversed(terms[:-1]):
+                accw += t[2]
+                acc = "(ECat %s %s %d false)" % (coq_exp(t, names), acc, accw)
+            rcases.append("(%s, %s)" % (acc, coq_exp(out, names)))
+            run.hist("rule_cases", "restruct", 1)
+            run.count(("restruct", tuple(terms)))
+        except Unsupported:
+            skipped += 1
+        except Exception as e:
+            run.violation("rule-raised|restruct", "composer raised %s on registers and constants" % type(e).__name__, {"parts": [str(t) for t in terms], "error": repr(e)[:200]})
     hdr = "From Coq Require Import ZArith List.\nImport ListNotations.\nRequire Import Amoco.Exp.Sem Amoco.Exp.Rules Amoco.Exp.Rules2.\nOpen Scope Z_scope.\n"
     texts = []
     shards = [cases[i:i + 400] for i in range(0, len(cases), 400)]
@@ -645,9 +678,12 @@ def rules_part(run, cx, quick):
     nshards2 = [norule2[i:i + 400] for i in range(0, len(norule2), 400)]
     for i, sh in enumerate(nshards2):
         texts.append(("norule2_%03d" % i, hdr + "Definition cases : list (exp * exp) := [\n%s\n].\nEval vm_compute in (bad_from check_norule2 0 cases).\n" % ";\n".join(sh)))
+    rshards = [rcases[i:i + 400] for i in range(0, len(rcases), 400)]
+    for i, sh in enumerate(rshards):
+        texts.append(("restruct_%03d" % i, hdr + "Definition cases : list (exp * exp) := [\n%s\n].\nEval vm_compute in (bad_from check_restruct 0 cases).\n" % ";\n".join(sh)))
     res = common.coq_eval_many(run.work / "rules", texts)
     n_ok = 0
-    for nm, sh in ([("rule_%03d" % i, sh) for i, sh in enumerate(shards)] + [("norule_%03d" % i, sh) for i, sh in enumerate(nshards)]
+    for nm, sh in ([("restruct_%03d" % i, sh) for i, sh in enumerate(rshards)] + [("rule_%03d" % i, sh) for i, sh in enumerate(shards)] + [("norule_%03d" % i, sh) for i, sh in enumerate(nshards)]
                    + [("rule2_%03d" % i, sh) for i, sh in enumerate(shards2)] + [("norule2_%03d" % i, sh) for i, sh in enumerate(nshards2)]):
         rc, out = res[nm]
         lists = common.parse_nat_list(out)
